@@ -106,6 +106,7 @@ type replayFile struct {
 	Original  int       `json:"original_decisions"`
 	Trace     []string  `json:"trace,omitempty"`
 	Note      string    `json:"note,omitempty"`
+	Tier      string    `json:"tier,omitempty"` // size classes the scenario used (VERIF_TIER of the run)
 }
 
 type knownFinding struct {
@@ -371,6 +372,11 @@ func cmdReplay(file string) int {
 	if err := readJSON(file, &rf); err != nil {
 		die2("cannot read %s: %v", file, err)
 	}
+	if rf.Tier != "" {
+		os.Setenv("VERIF_TIER", rf.Tier)
+	} else {
+		os.Setenv("VERIF_TIER", "quick")
+	}
 	res, crashed, sig, w := runReplay(bin, dir, file, true, "replay")
 	if crashed {
 		fmt.Printf("replay: worker process died: %s\n", sig)
@@ -422,6 +428,8 @@ func cmdCheck(prop, tier string) int {
 	t0 := time.Now()
 	seed := seedFromEnv()
 	tc := tierFor(tier)
+	// scenarios read VERIF_TIER to pick their size classes; every child process inherits it
+	os.Setenv("VERIF_TIER", tier)
 	dir, _ := os.MkdirTemp("", "vcheck-"+prop+"-")
 	defer os.RemoveAll(dir)
 	bin, info := build(dir)
@@ -483,7 +491,7 @@ func cmdCheck(prop, tier string) int {
 				rule = "wedge"
 			}
 			finds = append(finds, finding{v: violation{Prop: prop, Rule: rule, Msg: sig}, crash: true, worker: w.idx,
-				rf: replayFile{Prop: prop, Scenario: f[2], Seed: seed, Run: run}})
+				rf: replayFile{Prop: prop, Scenario: f[2], Seed: seed, Run: run, Tier: tier}})
 			continue
 		}
 		w.sum = &sum
@@ -518,7 +526,7 @@ func cmdCheck(prop, tier string) int {
 		}
 		for _, f := range sum.Known {
 			for _, v := range f.KnownHits {
-				finds = append(finds, finding{v: v, worker: w.idx, known: true, rf: replayFile{Prop: prop, Scenario: f.Scenario, Seed: f.Seed, Run: f.Run, Decisions: f.Decisions, Violation: v, TraceHash: f.TraceHash}})
+				finds = append(finds, finding{v: v, worker: w.idx, known: true, rf: replayFile{Prop: prop, Scenario: f.Scenario, Seed: f.Seed, Run: f.Run, Decisions: f.Decisions, Violation: v, TraceHash: f.TraceHash, Tier: tier}})
 				break
 			}
 		}
@@ -527,7 +535,7 @@ func cmdCheck(prop, tier string) int {
 		}
 		for _, f := range sum.Failures {
 			for _, v := range f.Violations {
-				finds = append(finds, finding{v: v, worker: w.idx, rf: replayFile{Prop: prop, Scenario: f.Scenario, Seed: f.Seed, Run: f.Run, Decisions: f.Decisions, Violation: v, TraceHash: f.TraceHash}})
+				finds = append(finds, finding{v: v, worker: w.idx, rf: replayFile{Prop: prop, Scenario: f.Scenario, Seed: f.Seed, Run: f.Run, Decisions: f.Decisions, Violation: v, TraceHash: f.TraceHash, Tier: tier}})
 				break // first violation of the run names the class
 			}
 		}
